@@ -582,7 +582,7 @@ const CONTEXTS: [(&str, &str, &str); 8] = [
 ];
 
 /// (rule, snippet, applies in loop?, applies in function?) - `None` means "always a violation".
-const SNIPPETS: [(Rule, &str); 30] = [
+const SNIPPETS: [(Rule, &str); 38] = [
     (Rule::UndeclaredVariable, "shout(nope)"),
     (Rule::UndeclaredVariable, "shout(\"v={nope}\")"),
     (Rule::UndeclaredVariable, "shout(to_string(1 add nope))"),
@@ -613,6 +613,16 @@ const SNIPPETS: [(Rule, &str); 30] = [
     (Rule::TypeError, "make tn get 5\nshout(tn minus \"s\")"),
     (Rule::UnknownMethod, "shout((5).len())"),
     (Rule::UnknownMethod, "shout(\"s\".push(1))"),
+    // the violation sits in the value (or index) of an index assignment whose target is rooted in
+    // a call result or a method result, not in a variable
+    (Rule::UndeclaredVariable, "do mk() start\nreturn [[1]]\nend\nmk()[0] get nope"),
+    (Rule::UndeclaredVariable, "do mk() start\nreturn [[1]]\nend\nmk()[0][0] get \"v={nope}\""),
+    (Rule::UnknownFunction, "do mk() start\nreturn [[1]]\nend\nmk()[0] get nofn(1)"),
+    (Rule::Arity, "do mk() start\nreturn [[1]]\nend\nmk()[0] get mk(1)"),
+    (Rule::TypeError, "do mk() start\nreturn [[1]]\nend\nmk()[0] get 1 minus \"s\""),
+    (Rule::UndeclaredVariable, "make sv get \"a,b\"\nsv.split(\",\")[0] get nope"),
+    (Rule::UndeclaredVariable, "do mk() start\nreturn [[1]]\nend\nmk()[nope] get 1"),
+    (Rule::UndeclaredVariable, "make ia get [1]\nia[0] get nope"),
 ];
 
 /// Static types of the typing table with three spellings each: literal, variable declared with a
@@ -919,6 +929,21 @@ fn grid(ctx: &mut ShardCtx) {
         run(ctx, if in_loop { None } else { Some(Rule::BreakOutsideLoop) }, cname, format!("{head}comot{foot}\n"));
         run(ctx, if in_loop { None } else { Some(Rule::ContinueOutsideLoop) }, cname, format!("{head}next{foot}\n"));
         run(ctx, if in_fn { None } else { Some(Rule::ReturnOutsideFunction) }, cname, format!("{head}return 1{foot}\n"));
+        // the same after a function definition / a loop of the same block has been closed
+        run(
+            ctx,
+            if in_fn { None } else { Some(Rule::ReturnOutsideFunction) },
+            cname,
+            format!("{head}do rf() start\nreturn 2\nend\nshout(rf())\nreturn 1{foot}\n"),
+        );
+        for (word, rule) in [("comot", Rule::BreakOutsideLoop), ("next", Rule::ContinueOutsideLoop)] {
+            run(
+                ctx,
+                if in_loop { None } else { Some(rule) },
+                cname,
+                format!("{head}make li get 0\njasi (li small pass 1) start\nli get li add 1\nend\ndo lf() start\nreturn 2\nend\n{word}{foot}\n"),
+            );
+        }
         // valid counterparts in every context
         for ok in [
             "make okv get 1\nshout(okv)",
